@@ -22,6 +22,8 @@ def src(pid, m):
         return f"/tmp/seed/out2-{pid}/{m[2:]}"
     if m.startswith("r3"):  # third round
         return f"/tmp/seed/out3-{pid}/{m[2:]}"
+    if m.startswith("r4"):  # fourth round
+        return f"/tmp/seed4/out-{pid}/{m[2:]}"
     return f"/tmp/seed/out-{pid}/{m}"
 
 
@@ -134,6 +136,44 @@ def detect(pid, m, tier="quick", check=None):
     return rec
 
 
+def detect_iso(pid, m, tier="quick", check=None):
+    """Same as detect, but on a private copy: a scratch worktree of /repo with the patch applied and a copy of /verif whose
+    harness module points at it (VERIF_REPO, own VERIF_CACHE). /repo and /verif are not touched, so several can run at once."""
+    check = check or pid
+    s = src(pid, m)
+    if not os.path.exists(s):
+        s = f"/verif/seeded/{pid}-{m}"
+    base = f"/var/tmp/det/{pid}-{m}-{check}"
+    sh(f"git -C /repo worktree remove --force {base}/repo")
+    shutil.rmtree(base, ignore_errors=True)
+    os.makedirs(base)
+    t0 = time.time()
+    try:
+        rc, out = sh(f"git -C /repo worktree add --detach {base}/repo HEAD")
+        assert rc == 0, out
+        rc, out = sh(f"git apply {s}/patch.diff", cwd=f"{base}/repo")
+        assert rc == 0, out
+        rc, out = sh(f"rsync -a --exclude .git --exclude seeded /verif/ {base}/verif/")
+        assert rc == 0, out
+        rc, out = sh(f"go mod edit -replace github.com/siglens/siglens={base}/repo", cwd=f"{base}/verif/harness")
+        assert rc == 0, out
+        env = f"VERIF_REPO={base}/repo VERIF_CACHE={base}/cache"
+        rc, out = sh(f"{env} ./vcheck {check} {tier}", cwd=f"{base}/verif", timeout=4000)
+    finally:
+        sh(f"git -C /repo worktree remove --force {base}/repo")
+        shutil.rmtree(base, ignore_errors=True)
+    lines = [l for l in out.splitlines() if not l.startswith("time=")]
+    vio = [l for l in lines if l.startswith("VIOLATION")]
+    fps = [l.strip() for l in lines if l.strip().startswith("fingerprint=")]
+    summ = [l for l in lines if re.match(r"^C\d\d (quick|thorough):", l)]
+    rec = {"property": pid, "mutation": m, "check": check, "tier": tier, "exit": rc, "violations": len(vio), "detected": rc == 1 and len(vio) > 0,
+           "fingerprints": [f[:400] for f in fps[:8]], "summary": summ, "wall_s": round(time.time() - t0, 1), "isolated_copy": True,
+           "harness_error": [l for l in lines if "HARNESS-ERROR" in l][:3]}
+    json.dump(rec, open(f"{REC}/{pid}-{m}.detect.{check}.{tier}.json", "w"), indent=1)
+    open(f"{REC}/{pid}-{m}.detect.{check}.{tier}.log", "w").write("\n".join(lines[-200:]))
+    return rec
+
+
 def keep(pid, m):
     s = src(pid, m)
     d = f"/verif/seeded/{pid}-{m}"
@@ -155,6 +195,9 @@ if __name__ == "__main__":
         print(json.dumps({k: v for k, v in r.items() if not k.endswith("_tail")}, indent=1))
     elif cmd == "detect":
         r = detect(pid, m, *(sys.argv[4:6]))
+        print(json.dumps(r, indent=1))
+    elif cmd == "detect_iso":
+        r = detect_iso(pid, m, *(sys.argv[4:6]))
         print(json.dumps(r, indent=1))
     elif cmd == "keep":
         keep(pid, m)
